@@ -168,93 +168,93 @@ E, C, F, X_, B_ = "pdf/src/enc.rs", "pdf/src/crypt.rs", "pdf/src/font.rs", "pdf/
 FI, CO, OM, TY, ST = "pdf/src/file.rs", "pdf/src/content.rs", "pdf/src/object/mod.rs", "pdf/src/object/types.rs", "pdf/src/object/stream.rs"
 SENSITIVITY = [
     # ---- enc.rs (gen/extract.py)
-    ("decode_nibble: a..h -> a..f", E, [("a @ b'a' ..= b'h'", "a @ b'a' ..= b'f'")]),
+    ("decode_nibble: a..h -> a..f", E, [("a @ b'a' ..= b'h'", "a @ b'a' ..= b'f'"), ("lower @ b'a' ..= b'h'", "lower @ b'a' ..= b'f'"), ("(b'a'..=b'h').contains(&c)", "(b'a'..=b'f').contains(&c)")]),
     ("encode_nibble: base 'a' -> 'A'", E, [("b'a' - 10 + c", "b'A' - 10 + c")]),
     ("decode_hex: form feed no longer skipped", E, [(".filter(|&b| !matches!(b, 0 | 9 | 10 | 12 | 13 | 32))", ".filter(|&b| !matches!(b, 0 | 9 | 10 | 13 | 32))"),
-                                                     ("0 | 9 | 10 | 12 | 13 | 32 => true", "0 | 9 | 10 | 13 | 32 => true")]),
+                                                     ("0 | 9 | 10 | 12 | 13 | 32 => true", "0 | 9 | 10 | 13 | 32 => true"), (".filter(|&b| !matches!(b, 0 | b'\\t' | b'\\n' | 0x0C | b'\\r' | b' '))", ".filter(|&b| !matches!(b, 0 | b'\\t' | b'\\n' | b'\\r' | b' '))", 0)]),
     ("decode_hex: EOD '>' -> '<'", E, [("take_while(|&b| b != b'>')", "take_while(|&b| b != b'<')"), ("take_while(|b| *b != 62)", "take_while(|b| *b != 60)")]),
     ("sym_85: range end 0x75 -> 0x74", E, [("0x21 ..= 0x75", "0x21 ..= 0x74")]),
     ("decode_85: form feed no longer skipped", E, [("0 | b'\\t' | b'\\n' | 12 | b'\\r' | b' '", "0 | b'\\t' | b'\\n' | b'\\r' | b' '"),
-                                                    ("0 | 9 | 10 | 12 | 13 | 32 => true", "0 | 9 | 10 | 13 | 32 => true")]),
+                                                    ("0 | 9 | 10 | 12 | 13 | 32 => true", "0 | 9 | 10 | 13 | 32 => true"), (".filter(|&b| !matches!(b, 0 | b'\\t' | b'\\n' | 0x0C | b'\\r' | b' '))", ".filter(|&b| !matches!(b, 0 | b'\\t' | b'\\n' | b'\\r' | b' '))", 1), ("!matches!(*b, 0 | b'\\t' | b'\\n' | 12 | b'\\r' | b' ')", "!matches!(*b, 0 | b'\\t' | b'\\n' | b'\\r' | b' ')")]),
     ("decode_85: '~' -> '}'", E, [("take_while(|&b| b != b'~')", "take_while(|&b| b != b'}')")]),
     ("decode_85: 'z' -> 'y'", E, [("Some(b'z') =>", "Some(b'y') =>"), ("Some(0x7A) =>", "Some(0x79) =>")]),
     ("decode_85: padding of the empty tail 'u' -> 'v'", E, [("[b'u'; 5]", "[b'v'; 5]"), ("[117; 5]", "[118; 5]")]),
     ("decode_85: '>' after '~' -> '<'", E, [("(Some(b'>'), None) => Ok(out)", "(Some(b'<'), None) => Ok(out)")]),
     ("run_length_decode: literal runs below 127", E, [("if length < 128 {", "if length < 127 {"), ("if len_byte < 128 {", "if len_byte < 127 {")]),
-    ("run_length_decode: repeat base 257 -> 256", E, [("257 - length", "256 - length"), ("257 - len_byte", "256 - len_byte")]),
+    ("run_length_decode: repeat base 257 -> 256", E, [("257 - length", "256 - length"), ("257 - len_byte", "256 - len_byte"), ("257 - run", "256 - run")]),
     ("PredictorType::from_u8: 3 -> Paeth", E, [("3 => Ok(PredictorType::Avg),", "3 => Ok(PredictorType::Paeth),"), ("3 => PredictorType::Avg,", "3 => PredictorType::Paeth,")]),
     ("PredictorType::from_u8: arm 4 dropped", E, [("            4 => Ok(PredictorType::Paeth),\n", ""), ("            4 => PredictorType::Paeth,\n", "")]),
-    ("unpredict: PNG from 11", E, [("if predictor >= 10 {", "if predictor > 10 {")]),
+    ("unpredict: PNG from 11", E, [("if predictor >= 10 {", "if predictor > 10 {"), ("if predictor > 9 {", "if predictor > 10 {")]),
     # ---- gen/extract_syn.py
-    ("is_whitespace: form feed dropped", L, [(" | b'\\x0c')", ")"), ("0x00 | 0x09 | 0x0A | 0x0C | 0x0D | 0x20", "0x00 | 0x09 | 0x0A | 0x0D | 0x20"), ("[0u8, 9, 10, 12, 13, 32].contains(&b)", "[0u8, 9, 10, 13, 32].contains(&b)")]),
+    ("is_whitespace: form feed dropped", L, [(" | b'\\x0c')", ")"), ("0x00 | 0x09 | 0x0A | 0x0C | 0x0D | 0x20", "0x00 | 0x09 | 0x0A | 0x0D | 0x20"), ("[0u8, 9, 10, 12, 13, 32].contains(&b)", "[0u8, 9, 10, 13, 32].contains(&b)"), ("0 | b' ' | b'\\r' | b'\\n' | b'\\t' | b'\\x0c' => true", "0 | b' ' | b'\\r' | b'\\n' | b'\\t' => true"), ("b == 0 || b.is_ascii_whitespace()", "b == 0 || (b.is_ascii_whitespace() && b != 12)")]),
     ("is_delimiter: '%' dropped", L, [('b"()<>[]{}/%"', 'b"()<>[]{}/"'), (" | b'/' | b'%'))", " | b'/'))")]),
     ("next_word: comment starts with '#'", L, [("Some(&b'%')", "Some(&b'#')"), ("Some(&0x25)", "Some(&0x23)")]),
-    ("next_word: a comment ends at LF only", L, [("|&b| b == b'\\n' || b == b'\\r'", "|&b| b == b'\\n'"), ("matches!(*ch, 0x0A | 0x0D)", "matches!(*ch, 0x0A)")]),
-    ("next_lexeme: \\b -> 0x07", S, [("b'b' => Some(b'\\x08')", "b'b' => Some(b'\\x07')"), ("b'b' => Some(0x08)", "b'b' => Some(0x07)")]),
+    ("next_word: a comment ends at LF only", L, [("|&b| b == b'\\n' || b == b'\\r'", "|&b| b == b'\\n'"), ("matches!(*ch, 0x0A | 0x0D)", "matches!(*ch, 0x0A)"), ("|&c| c == b'\\n' || c == b'\\r'", "|&c| c == b'\\n'"), ("|&b| matches!(b, b'\\n' | b'\\r')", "|&b| matches!(b, b'\\n')")]),
+    ("next_lexeme: \\b -> 0x07", S, [("b'b' => Some(b'\\x08')", "b'b' => Some(b'\\x07')"), ("b'b' => Some(0x08)", "b'b' => Some(0x07)"), ("b'b' => Some(8u8)", "b'b' => Some(7u8)")]),
     ("next_lexeme: \\n -> CR", S, [("b'n' => Some(b'\\n')", "b'n' => Some(b'\\r')"), ("b'n' => Some(0x0A)", "b'n' => Some(0x0D)")]),
-    ("next_lexeme: escape arm \\f dropped", S, [("                    b'f' => Some(b'\\x0c'),\n", ""), ("                    b'f' => Some(0x0C),\n", "")]),
-    ("next_lexeme: octal digits 0..9", S, [("(b'0'..=b'7').contains", "(b'0'..=b'9').contains"), ("matches!(c, b'0'..=b'7')", "matches!(c, b'0'..=b'9')")]),
-    ("next_lexeme: octal digit test is_ascii_digit (seeded C03b)", S, [("(b'0'..=b'7').contains(&c)", "c.is_ascii_digit()"), ("!(b'0'..=b'7').contains(&digit)", "!digit.is_ascii_digit()")]),
-    ("next_lexeme: octal digit test polarity", S, [("if (b'0'..=b'7').contains(&c) {", "if !(b'0'..=b'7').contains(&c) {"), ("if !(b'0'..=b'7').contains(&digit) {", "if (b'0'..=b'7').contains(&digit) {"), ("if matches!(c, b'0'..=b'7') {", "if !matches!(c, b'0'..=b'7') {")]),
+    ("next_lexeme: escape arm \\f dropped", S, [("                    b'f' => Some(b'\\x0c'),\n", ""), ("                    b'f' => Some(0x0C),\n", ""), ("                    b'f' => Some(0x0C), // form feed\n", "")]),
+    ("next_lexeme: octal digits 0..9", S, [("(b'0'..=b'7').contains", "(b'0'..=b'9').contains"), ("matches!(c, b'0'..=b'7')", "matches!(c, b'0'..=b'9')"), ("!matches!(digit, b'0'..=b'7')", "!matches!(digit, b'0'..=b'9')"), ("!matches!(c, b'0'..=b'7')", "!matches!(c, b'0'..=b'9')")]),
+    ("next_lexeme: octal digit test is_ascii_digit (seeded C03b)", S, [("(b'0'..=b'7').contains(&c)", "c.is_ascii_digit()"), ("!(b'0'..=b'7').contains(&digit)", "!digit.is_ascii_digit()"), ("!matches!(digit, b'0'..=b'7')", "!digit.is_ascii_digit()"), ("!matches!(c, b'0'..=b'7')", "!c.is_ascii_digit()"), ("if matches!(c, b'0'..=b'7') {", "if c.is_ascii_digit() {")]),
+    ("next_lexeme: octal digit test polarity", S, [("if (b'0'..=b'7').contains(&c) {", "if !(b'0'..=b'7').contains(&c) {"), ("if !(b'0'..=b'7').contains(&digit) {", "if (b'0'..=b'7').contains(&digit) {"), ("if matches!(c, b'0'..=b'7') {", "if !matches!(c, b'0'..=b'7') {"), ("if !matches!(digit, b'0'..=b'7') {", "if matches!(digit, b'0'..=b'7') {"), ("if !matches!(c, b'0'..=b'7') {", "if matches!(c, b'0'..=b'7') {")]),
     ("next_lexeme: at most 2 octal digits", S, [("for _ in 0..3 {", "for _ in 0..2 {")]),
     ("next_lexeme: octal base 10", S, [("char_code = char_code * 8 +", "char_code = char_code * 10 +")]),
-    ("hex string: form feed is not white-space", S, [(" || byte == b'\\x0c'", ""), (" || byte == 0x0C", ""), (" | b'\\r' | 12 | 0)", " | b'\\r' | 0)")]),
-    ("next_hex_byte: high nibble A..F + 0xB", S, [("c1 - b'A' + 0xA", "c1 - b'A' + 0xB")]),
-    ("next_hex_byte: end '>' -> '<'", S, [("b'>' => return Ok(None)", "b'<' => return Ok(None)"), ("0x3E => return Ok(None)", "0x3C => return Ok(None)")]),
-    ("next_stream: LF test -> VT", L, [("if b0 == b'\\n' {", "if b0 == b'\\x0b' {"), ("if first == b'\\n' {", "if first == b'\\x0b' {")]),
+    ("hex string: form feed is not white-space", S, [(" || byte == b'\\x0c'", ""), (" || byte == 0x0C", ""), (" | b'\\r' | 12 | 0)", " | b'\\r' | 0)"), ("while matches!(byte, b' ' | b'\\t' | b'\\n' | b'\\r' | b'\\x0c' | 0) {", "while matches!(byte, b' ' | b'\\t' | b'\\n' | b'\\r' | 0) {"), ("while byte == 0 || byte.is_ascii_whitespace() {", "while byte == 0 || (byte.is_ascii_whitespace() && byte != 12) {")]),
+    ("next_hex_byte: high nibble A..F + 0xB", S, [("c1 - b'A' + 0xA", "c1 - b'A' + 0xB"), ("b'A' ..= b'F' => Some(c - b'A' + 0xA),", "b'A' ..= b'F' => Some(c - b'A' + 0xB),")]),
+    ("next_hex_byte: end '>' -> '<'", S, [("b'>' => return Ok(None)", "b'<' => return Ok(None)"), ("0x3E => return Ok(None)", "0x3C => return Ok(None)"), ("(b'>', None) => return Ok(None)", "(b'<', None) => return Ok(None)")]),
+    ("next_stream: LF test -> VT", L, [("if b0 == b'\\n' {", "if b0 == b'\\x0b' {"), ("if first == b'\\n' {", "if first == b'\\x0b' {"), ("if first == 0x0A {", "if first == 0x0B {"), ("b'\\n' => self.pos = pos + 1,", "b'\\x0b' => self.pos = pos + 1,")]),
     ("next_stream: CR LF skips 3", L, [("self.pos = pos + 2;", "self.pos = pos + 3;")]),
     ("MAX_DEPTH 20 -> 19", "pdf/src/parser/mod.rs", [("const MAX_DEPTH: usize = 20;", "const MAX_DEPTH: usize = 19;")]),
-    ("serialize_name: '~' escaped", P, [("b'!' ..= b'~' if", "b'!' ..= b'}' if"), ("0x21 ..= 0x7E if", "0x21 ..= 0x7D if")]),
-    ("serialize_name: '#' written raw", P, [('!b"()<>[]{}/%#".contains(&b)', '!b"()<>[]{}/%".contains(&b)'), ("b'/', b'%', b'#'];", "b'/', b'%', b'%'];")]),
-    ("PdfString::serialize: hex from 0x81", P, [("any(|&b| b >= 0x80)", "any(|&b| b > 0x80)"), ("any(|b| *b > 127)", "any(|b| *b > 128)")]),
+    ("serialize_name: '~' escaped", P, [("b'!' ..= b'~' if", "b'!' ..= b'}' if"), ("0x21 ..= 0x7E if", "0x21 ..= 0x7D if"), ("b if b.is_ascii_graphic() && !b", "b if b.is_ascii_graphic() && b != b'~' && !b")]),
+    ("serialize_name: '#' written raw", P, [('!b"()<>[]{}/%#".contains(&b)', '!b"()<>[]{}/%".contains(&b)'), ("b'/', b'%', b'#'];", "b'/', b'%', b'%'];"), ('!b"()<>[]{}/%#".contains(&byte)', '!b"()<>[]{}/%".contains(&byte)')]),
+    ("PdfString::serialize: hex from 0x81", P, [("any(|&b| b >= 0x80)", "any(|&b| b > 0x80)"), ("any(|b| *b > 127)", "any(|b| *b > 128)"), ("any(|b| !b.is_ascii())", "any(|b| !b.is_ascii() && *b != 128)")]),
     # ---- gen/extract_codec.py
-    ("predictor_geometry: 16 bits no longer allowed", E, [("params.bits_per_component, 1 | 2 | 4 | 8 | 16)", "params.bits_per_component, 1 | 2 | 4 | 8)")]),
+    ("predictor_geometry: 16 bits no longer allowed", E, [("params.bits_per_component, 1 | 2 | 4 | 8 | 16)", "params.bits_per_component, 1 | 2 | 4 | 8)"), ("1 | 2 | 4 | 8 | 16 => true,", "1 | 2 | 4 | 8 => true,")]),
     ("from_kind_and_params: Crypt -> JPXDecode", E, [('"Crypt" => StreamFilter::Crypt,', '"Crypt" => StreamFilter::JPXDecode,')]),
     ("from_kind_and_params: JPXDecode arm dropped", E, [('"JPXDecode" => StreamFilter::JPXDecode,\n', "\n")]),
     ("decode: ASCII85 decoded by decode_hex", E, [("StreamFilter::ASCII85Decode => decode_85(data)", "StreamFilter::ASCII85Decode => decode_hex(data)")]),
-    ("StreamInfo: parameters of filter 0 for every filter", ST, [("match decode_params.get(i) {", "match decode_params.get(0) {")]),
+    ("StreamInfo: parameters of filter 0 for every filter", ST, [("match decode_params.get(i) {", "match decode_params.get(0) {"), ("match params.get(i) {", "match params.get(0) {")]),
     ("StreamInfo: /DecodeParms -> /DP", ST, [('dict.remove("DecodeParms")', 'dict.remove("DP")')]),
     # ---- gen/extract_crypt.py
     ("key derivation: /EncryptMetadata bytes", C, [("hash.consume([0xff, 0xff, 0xff, 0xff]);", "hash.consume([0xff, 0xff, 0xff, 0xfe]);"), ("hash.consume([0xff_u8; 4]);", "hash.consume([0xff_u8; 3]);")]),
     ("key derivation: password padded to 31", C, [("if pass.len() < 32 {", "if pass.len() < 31 {", 0)]),
-    ("key derivation: md5 rounds on 15 bytes", C, [("md5::compute(&data[..std::cmp::min(key_size, 16)])", "md5::compute(&data[..std::cmp::min(key_size, 15)])")]),
-    ("decrypt: salt", C, [('b"sAlT"', 'b"sAlt"'), ("[0x73, 0x41, 0x6C, 0x54]", "[0x73, 0x41, 0x6C, 0x74]")]),
+    ("key derivation: md5 rounds on 15 bytes", C, [("md5::compute(&data[..std::cmp::min(key_size, 16)])", "md5::compute(&data[..std::cmp::min(key_size, 15)])"), ("md5::compute(&data[..key_size.min(16)])", "md5::compute(&data[..key_size.min(15)])")]),
+    ("decrypt: salt", C, [('b"sAlT"', 'b"sAlt"'), ("[0x73, 0x41, 0x6C, 0x54]", "[0x73, 0x41, 0x6C, 0x74]"), ("[b's', b'A', b'l', b'T']", "[b's', b'A', b'l', b't']")]),
     ("decrypt: 2 bytes of the object number (seeded C06)", C, [("id.id.to_le_bytes()[..3]", "id.id.to_le_bytes()[..2]", 0), ("&id_bytes[..3]", "&id_bytes[..2]")]),
     ("decrypt: object key capped at 15", C, [("(n + 5).min(16)", "(n + 5).min(15)", 0)]),
-    ("Decoder::key capped at 15", C, [("&self.key[.. std::cmp::min(self.key_size, 16)]", "&self.key[.. std::cmp::min(self.key_size, 15)]"), ("let len = self.key_size.min(16);", "let len = self.key_size.min(15);"), ("16_usize.min(self.key_size)", "15_usize.min(self.key_size)")]),
+    ("Decoder::key capped at 15", C, [("&self.key[.. std::cmp::min(self.key_size, 16)]", "&self.key[.. std::cmp::min(self.key_size, 15)]"), ("let len = self.key_size.min(16);", "let len = self.key_size.min(15);"), ("16_usize.min(self.key_size)", "15_usize.min(self.key_size)"), ("&self.key[.. self.key_size.min(16)]", "&self.key[.. self.key_size.min(15)]")]),
     # ---- gen/extract_font.py
     ("parse_cid: one-byte code has length 3", F, [("1 => Ok(b[0] as u16)", "3 => Ok(b[0] as u16)"), ("1 => Ok(bytes[0] as u16)", "3 => Ok(bytes[0] as u16)")]),
     ("next_hex_byte: shift 3", S, [("(high_nibble << 4)", "(high_nibble << 3)")]),
     ("next_word: name starts with '\\'", L, [("if self.buf[pos] == b'/' {", "if self.buf[pos] == b'\\\\' {")]),
-    ("next_word: '>>' -> ']]'", L, [('slice == b">>"', 'slice == b"]]"')]),
+    ("next_word: '>>' -> ']]'", L, [('slice == b">>"', 'slice == b"]]"'), ("slice == &[b'>', b'>']", "slice == &[b']', b']']")]),
     # ---- gen/extract_xref.py
-    ("HEADER without '-'", B_, [('const HEADER: &[u8] = b"%PDF-";', 'const HEADER: &[u8] = b"%PDF";'), ("b'D', b'F', b'-'];", "b'D', b'F'];")]),
+    ("HEADER without '-'", B_, [('const HEADER: &[u8] = b"%PDF-";', 'const HEADER: &[u8] = b"%PDF";'), ("b'D', b'F', b'-'];", "b'D', b'F'];"), ('const HEADER: &[u8; 5] = b"%PDF-";', 'const HEADER: &[u8; 4] = b"%PDF";')]),
     ("header window 512", B_, [("std::cmp::min(1024, self.len())", "std::cmp::min(512, self.len())"), ("self.len().min(1024)", "self.len().min(512)"), ("1024_usize.min(self.len())", "512_usize.min(self.len())")]),
-    ("XRefTable::new: generation 65534", X_, [("gen_nr: 0xffff }", "gen_nr: 0xfffe }"), ("gen_nr: 65535 }", "gen_nr: 65534 }"), ("gen_nr: 0o177777 }", "gen_nr: 0o177776 }")]),
+    ("XRefTable::new: generation 65534", X_, [("gen_nr: 0xffff }", "gen_nr: 0xfffe }"), ("gen_nr: 65535 }", "gen_nr: 65534 }"), ("gen_nr: 0o177777 }", "gen_nr: 0o177776 }"), ("gen_nr: 65_535 }", "gen_nr: 65_534 }")]),
     ("XRefTable::new: filled with Promised", X_, [("entries.resize(num_objects as usize, XRef::Invalid);", "entries.resize(num_objects as usize, XRef::Promised);"), ("vec![XRef::Invalid; num_objects as usize]", "vec![XRef::Promised; num_objects as usize]")]),
-    ("xref stream: fields of a type-1 entry swapped", PX, [("XRef::Raw {pos: field1 as usize, gen_nr: field2 as GenNr}", "XRef::Raw {pos: field2 as usize, gen_nr: field1 as GenNr}")]),
+    ("xref stream: fields of a type-1 entry swapped", PX, [("XRef::Raw {pos: field1 as usize, gen_nr: field2 as GenNr}", "XRef::Raw {pos: field2 as usize, gen_nr: field1 as GenNr}"), ("XRef::Raw { pos: field1 as usize, gen_nr: field2 as GenNr }", "XRef::Raw { pos: field2 as usize, gen_nr: field1 as GenNr }")]),
     ("xref stream: type 2 entry read as type 3", PX, [("2 => XRef::Stream {", "3 => XRef::Stream {")]),
-    ("xref stream: default type 0", PX, [("if w0 == 0 {\n            1\n", "if w0 == 0 {\n            0\n")]),
-    ("read_u64_from_stream: 4 bits per byte", PX, [("= 8 * i;", "= 4 * i;")]),
+    ("xref stream: default type 0", PX, [("if w0 == 0 {\n            1\n", "if w0 == 0 {\n            0\n"), ("0 => 1,\n            _ => read_u64_from_stream(w0, data)?,", "0 => 0,\n            _ => read_u64_from_stream(w0, data)?,")]),
+    ("read_u64_from_stream: 4 bits per byte", PX, [("= 8 * i;", "= 4 * i;"), ("= 8 * remaining;", "= 4 * remaining;"), ("= i * 8;", "= i * 4;")]),
     ("read_u64_from_stream: width limit u32", PX, [("size_of::<u64>()", "size_of::<u32>()")]),
-    ("xref table: keyword f -> F", PX, [('if w3 == "f" {', 'if w3 == "F" {'), ('if keyword == "f" {', 'if keyword == "F" {')]),
+    ("xref table: keyword f -> F", PX, [('if w3 == "f" {', 'if w3 == "F" {'), ('if keyword == "f" {', 'if keyword == "F" {'), ('if kind == "f" {', 'if kind == "F" {')]),
     ("xref table: offset read as u32", PX, [("w1.to::<usize>()", "w1.to::<u32>()"), ("first.to::<usize>()", "first.to::<u32>()")]),
     # ---- gen/extract_storage.py
     ("write_revision: endobj without LF (seeded C04b)", FI, [('writeln!(self.backend, "\\nendobj")?;', 'writeln!(self.backend, "endobj")?;')]),
     ("write_revision: write_stream(id + 2)", FI, [("xref_promise.get_inner().id as usize + 1", "xref_promise.get_inner().id as usize + 2"), ("xref_id as usize + 1", "xref_id as usize + 2")]),
     ("write_stream: /W [2 ..]", X_, [("w: vec![1, a_w, b_w]", "w: vec![2, a_w, b_w]")]),
-    ("write_stream: /Index [1 ..]", X_, [("index: vec![0, size as u32]", "index: vec![1, size as u32]"), ("index: vec![0, size_u32]", "index: vec![1, size_u32]")]),
-    ("write_stream: /Index ends with size + 1", X_, [("index: vec![0, size as u32]", "index: vec![0, size as u32 + 1]"), ("let size_u32 = size as u32;", "let size_u32 = (size + 1) as u32;")]),
+    ("write_stream: /Index [1 ..]", X_, [("index: vec![0, size as u32]", "index: vec![1, size as u32]"), ("index: vec![0, size_u32]", "index: vec![1, size_u32]"), ("index: vec![0, size],", "index: vec![1, size],")]),
+    ("write_stream: /Index ends with size + 1", X_, [("index: vec![0, size as u32]", "index: vec![0, size as u32 + 1]"), ("let size_u32 = size as u32;", "let size_u32 = (size + 1) as u32;"), ("let size = size as u32;", "let size = (size + 1) as u32;")]),
     ("write_stream: fields cut from byte 7", X_, [("[8 - a_w ..]", "[7 - a_w ..]")]),
     ("write_stream: widths swapped (seeded C10)", X_, [("let (max_a, max_b) = self.max_field_widths();", "let (max_b, max_a) = self.max_field_widths();")]),
     ("resolve_ref: changes looked up by generation", FI, [("self.changes.get(&r.id)", "self.changes.get(&r.gen)")]),
     ("resolve_ref: pending changes consulted after the table", FI, [("        match self.changes.get(&r.id) {\n            Some((p, _)) => Ok((*p).clone()),\n            None => match t!(self.refs.get(r.id)) {", "        match self.changes.get(&r.gen) {\n            Some((p, _)) => Ok((*p).clone()),\n            None => match t!(self.refs.get(r.id)) {"),
-                                                                    ("            return Ok((*changed).clone());", "            let _ = changed;")]),
+                                                                    ("            return Ok((*changed).clone());", "            let _ = changed;"), ("Some((changed, _)) => Ok(changed.clone()),", "Some((changed, _)) if false => Ok(changed.clone()),"), ("Some((p, _)) => Ok(p.clone()),", "Some((p, _)) if false => Ok(p.clone()),")]),
     # ---- gen/extract_import.py
     ("Storage::empty: XRefTable::new(1)", FI, [("refs: XRefTable::new(0),", "refs: XRefTable::new(1),", 0)]),
     ("Primitive::deep_clone: references copied as they are", OM, [("Primitive::Reference(r) => Ok(Primitive::Reference(r.deep_clone(cloner)?)),", "Primitive::Reference(r) => Ok(Primitive::Reference(r)),")]),
     ("Primitive::deep_clone: arrays shallow", OM, [("Ok(Primitive::Array(parts.into_iter().map(|p| p.deep_clone(cloner)).try_collect()?))", "Ok(Primitive::Array(parts.clone()))"),
-                                                 ("let cloned_parts = parts.into_iter().map(|part| part.deep_clone(cloner)).try_collect()?;", "let cloned_parts = parts.clone();")]),
+                                                 ("let cloned_parts = parts.into_iter().map(|part| part.deep_clone(cloner)).try_collect()?;", "let cloned_parts = parts.clone();"), ("let cloned = parts.iter().map(|part| part.deep_clone(cloner)).try_collect()?;", "let cloned = parts.clone();")]),
     # ---- gen/extract_content.py
     ("RenderingIntent::from_str: Perceptual -> Saturation", TY, [('"Perceptual" => Some(RenderingIntent::Perceptual),', '"Perceptual" => Some(RenderingIntent::Saturation),')]),
     ("inline image: CS expands to Colorspace", CO, [('("CS", "ColorSpace"),', '("CS", "Colorspace"),')]),
@@ -266,10 +266,10 @@ SENSITIVITY = [
                                                               ("if resolve.options().allow_invalid_ops {", "if !resolve.options().allow_invalid_ops {")]),
     ("ParseOptions::strict: allow_invalid_ops false", OM, [("allow_invalid_ops: true,", "allow_invalid_ops: false,", 1)]),
     # ---- gen/extract_cache.py
-    ("raw_image_data: LZW counts as an image filter", TY, [("StreamFilter::LZWDecode(_) => false,", "StreamFilter::LZWDecode(_) => true,"), ("                    | StreamFilter::LZWDecode(_)\n", "")]),
-    ("raw_image_data: Crypt counts as a transport filter", TY, [("StreamFilter::Crypt => true,", "StreamFilter::Crypt => false,"), ("| StreamFilter::RunLengthDecode => false,", "| StreamFilter::RunLengthDecode | StreamFilter::Crypt => false,")]),
-    ("raw_image_data: default false", TY, [("                    _ => true\n                }).unwrap_or(filters.len());", "                    _ => false\n                }).unwrap_or(filters.len());")]),
-    ("raw_image_data: JPX no longer an image codec", TY, [("                    [StreamFilter::JPXDecode] |\n", "")]),
+    ("raw_image_data: LZW counts as an image filter", TY, [("StreamFilter::LZWDecode(_) => false,", "StreamFilter::LZWDecode(_) => true,"), ("                    | StreamFilter::LZWDecode(_)\n", ""), (" | StreamFilter::LZWDecode(_) | StreamFilter::RunLengthDecode))", " | StreamFilter::RunLengthDecode))")]),
+    ("raw_image_data: Crypt counts as a transport filter", TY, [("StreamFilter::Crypt => true,", "StreamFilter::Crypt => false,"), ("| StreamFilter::RunLengthDecode => false,", "| StreamFilter::RunLengthDecode | StreamFilter::Crypt => false,"), (" | StreamFilter::RunLengthDecode))", " | StreamFilter::RunLengthDecode | StreamFilter::Crypt))")]),
+    ("raw_image_data: default false", TY, [("                    _ => true\n                }).unwrap_or(filters.len());", "                    _ => false\n                }).unwrap_or(filters.len());"), ("rposition(|f| !matches!(f, StreamFilter::ASCIIHexDecode", "rposition(|f| matches!(f, StreamFilter::ASCIIHexDecode")]),
+    ("raw_image_data: JPX no longer an image codec", TY, [("                    [StreamFilter::JPXDecode] |\n", ""), (" | StreamFilter::JPXDecode\n", "\n")]),
     # ---- gen/extract_typed.py
     ("Option<T>: null object no longer None", OM, [("            Primitive::Null => Ok(None),\n            p => match T::from_primitive(p, resolve) {", "            Primitive::Integer(0) => Ok(None),\n            p => match T::from_primitive(p, resolve) {"),
                                                    ("if let Primitive::Null = p {\n            return Ok(None);", "if let Primitive::Integer(0) = p {\n            return Ok(None);")]),
@@ -281,13 +281,51 @@ SENSITIVITY = [
     # ---- extractors whose locals are now bound instead of named (content enum codes, storage, typed, safety)
     ("OpBuilder::add j: 1 -> Bevel", CO, [("1 => LineJoin::Round,", "1 => LineJoin::Bevel,")]),
     ("save: /Size = len + 1 (seeded C10b)", FI, [("trailer.size = (self.refs.len() + 2) as _;", "trailer.size = (self.refs.len() + 1) as _;")]),
-    ("Storage::update: a compressed object cannot be updated", FI, [("XRef::Stream { .. } => PlainRef { id: old.id, gen: 0 },", "XRef::Stream { .. } => panic!(),")]),
+    ("Storage::update: a compressed object cannot be updated", FI, [("XRef::Stream { .. } => PlainRef { id: old.id, gen: 0 },", "XRef::Stream { .. } => panic!(),"), ("XRef::Stream { .. } | XRef::Promised => PlainRef { id: old.id, gen: 0 },", "XRef::Stream { .. } | XRef::Promised => panic!(),")]),
     ("Storage::update: generation of the entry ignored", FI, [("XRef::Raw { gen_nr, .. } => PlainRef { id: old.id, gen: gen_nr },", "XRef::Raw { .. } => PlainRef { id: old.id, gen: 0 },")]),
     ("StorageResolver::get: cached error not wrapped", FI, [("Err(e) if computed => Err(PdfError::Shared { source: e.clone()}),", "Err(e) if computed => Err(e.clone()),")]),
     ("NameTree::walk: depth budget 31", TY, [("self.walk_limited(r, callback, 32,", "self.walk_limited(r, callback, 31,", 0)]),
     ("ColorSpace: depth budget 4", "pdf/src/object/color.rs", [("ColorSpace::from_primitive_depth(p, resolve, 5)", "ColorSpace::from_primitive_depth(p, resolve, 4)")]),
     ("Function type 2: domain guard 1", "pdf/src/object/function.rs", [("if raw.domain.len() < 2 {", "if raw.domain.len() < 1 {")]),
     ("Encoding differences: gid += 1", "pdf/src/encoding.rs", [("gid = gid.wrapping_add(1);", "gid += 1;")]),
+    # ---- round 2: spots whose reading was changed (evaluation / helper following / normalised writes)
+    ("hex_digit_value helper: a..f + 0xB (r3)", S, [("b'a' ..= b'f' => Some(c - b'a' + 0xA),", "b'a' ..= b'f' => Some(c - b'a' + 0xB),"), ("b'a' ..= b'f' => c1 - b'a' + 0xA,", "b'a' ..= b'f' => c1 - b'a' + 0xB,")]),
+    ("next_hex_byte: second read steps back on '<'", S, [("            (b'>', None) => {\n", "            (b'<', None) => {\n"), ("            b'>' => {\n                self.back()?;", "            b'<' => {\n                self.back()?;"), ("            0x3E => {\n                self.back()?;", "            0x3C => {\n                self.back()?;")]),
+    ("sym_85: offset", E, [("Some(b - 0x21)", "Some(b - 0x20)"), ("- 0x21)", "- 0x20)")]),
+    ("encode_nibble: 10..15 -> 10..14", E, [("10 ..= 15 =>", "10 ..= 14 =>")]),
+    ("from_password: R5/R6 slice of U", C, [("&u[32..40];", "&u[32..41];")]),
+    ("from_password: user hash slice", C, [("let user_hash = &u[0..32];", "let user_hash = &u[0..31];"), ("let user_hash = &u[..32];", "let user_hash = &u[..31];")]),
+    ("revision_6_kdf: block size 48 hashed with sha512", C, [("                48 => {\n                    sha384.update(encrypted);", "                48 => {\n                    sha512.update(encrypted);")]),
+    ("from_password: revision 7 admitted", C, [("if !(2..=6).contains(&level) {", "if !(2..=7).contains(&level) {"), ("if level < 2 || level > 6 {", "if level < 2 || level > 7 {")]),
+    ("from_password: owner rounds 19", C, [("{ 20u8 }", "{ 19u8 }"), ("{ 20_u8 }", "{ 19_u8 }")]),
+    ("from_password: owner rounds polarity", C, [("let rounds = if level == 2 {", "let rounds = if level != 2 {"), ("let rounds = if level != 2 {", "let rounds = if level == 2 {")]),
+    ("compute_u_rev_3_4: 18 rounds", C, [("1u8..=19 {", "1u8..=18 {"), ("1..=19u8 {", "1..=18u8 {")]),
+    ("check_cid: MAX_CID itself rejected", F, [("if cid > MAX_CID {", "if cid >= MAX_CID {"), ("if cid <= MAX_CID {", "if cid < MAX_CID {"), ("if MAX_CID < cid {", "if MAX_CID <= cid {")]),
+    ("check_cid: polarity", F, [("if cid > MAX_CID {", "if cid < MAX_CID {"), ("if cid <= MAX_CID {", "if cid > MAX_CID {"), ("if MAX_CID < cid {", "if MAX_CID > cid {")]),
+    ("MAX_CID 0xFFFE", F, [("const MAX_CID: usize = 0xFFFF;", "const MAX_CID: usize = 0xFFFE;")]),
+    ("parse_cmap: last byte incremented up to 254", F, [("if *last < 255 {", "if *last < 254 {"), ("if *last == 255 {", "if *last >= 254 {")]),
+    ("parse_cmap: last byte increment polarity", F, [("if *last < 255 {", "if *last > 255 {"), ("if *last == 255 {", "if *last != 255 {")]),
+    ("parse_cmap: keyword", F, [('b"beginbfrange" => loop {', 'b"beginbfrang" => loop {')]),
+    ("parse_cmap: endcmap no longer ends the scan", F, [('b"endcmap" => break,', 'b"endcmap" => {}')]),
+    ("write_cid: 3 digits", F, [('"<{:04X}>"', '"<{:03X}>"'), ('"<{cid:04X}>"', '"<{cid:03X}>"')]),
+    ("write_cid: lower case", F, [('"<{:04X}>"', '"<{:04x}>"'), ('"<{cid:04X}>"', '"<{cid:04x}>"')]),
+    ("walk_limited: visited test dropped (NameTree)", TY, [("if !seen.insert(tree_ref.get_inner()) {", "if seen.contains(&tree_ref.get_inner()) {", 0), ("if !seen.insert(plain) {", "if seen.contains(&plain) {")]),
+    ("walk_limited: recursion with the same depth", TY, [("tree.walk_limited(r, callback, depth - 1, seen)?;", "tree.walk_limited(r, callback, depth, seen)?;", 0)]),
+    ("walk_limited: another set is inserted into (let-hoisted)", TY, [("let plain = tree_ref.get_inner();", "let plain = tree_ref.get_outer();"), ("if !seen.insert(tree_ref.get_inner()) {", "if !seen.insert(tree_ref.get_outer()) {", 0)]),
+    ("XRefTable::get: missing entry is a NullRef", X_, [("None => Err(PdfError::UnspecifiedXRefEntry {id}),", "None => Err(PdfError::NullRef {obj_nr: id}),"), (".ok_or(PdfError::UnspecifiedXRefEntry { id })", ".ok_or(PdfError::NullRef { obj_nr: id })"), (".ok_or_else(|| PdfError::UnspecifiedXRefEntry { id })", ".ok_or_else(|| PdfError::NullRef { obj_nr: id })")]),
+    ("save: the table is not rolled back", FI, [("            self.refs.truncate(num_refs);\n", ""), ("                self.refs.truncate(num_refs);\n", "")]),
+    ("save: the error of write_revision is swallowed", FI, [("            self.refs.truncate(num_refs);\n            return Err(e);", "            self.refs.truncate(num_refs);"), ("                self.refs.truncate(num_refs);\n                return Err(e);", "                self.refs.truncate(num_refs);")]),
+    ("xref table: n and f exchanged", PX, [('if w3 == "f" {', 'if w3 == "n" {', 0), ('if kind == "n" {', 'if kind == "f" {', 0), ('if keyword == "f" {', 'if keyword == "n" {', 0)]),
+    ("xref table: trailer keyword in the entry loop", PX, [('if w1 == "trailer" {', 'if w1 == "trailers" {'), ('if first == "trailer" {', 'if first == "trailers" {')]),
+    ("write_revision: startxref tail without final newline", FI, [('"\\nstartxref\\n{}\\n%%EOF\\n"', '"\\nstartxref\\n{}\\n%%EOF"'), ('writeln!(self.backend, "\\nstartxref\\n{xref_pos}\\n%%EOF")', 'write!(self.backend, "\\nstartxref\\n{xref_pos}\\n%%EOF")')]),
+    ("write_revision: object header keyword", FI, [('"{} {} obj", id, gen', '"{} {} objx", id, gen'), ('"{id} {gen} obj"', '"{id} {gen} objx"')]),
+    ("next_stream: CR alone accepted", L, [("if b1 != b'\\n' {", "if b1 != b'\\n' && false {"), ("if second != 0x0A {", "if second != 0x0A && false {"), ("if second != b'\\n' {", "if second != b'\\n' && false {")]),
+    ("next_stream: CR test -> FF", L, [("} else if b0 == b'\\r' {", "} else if b0 == b'\\x0c' {"), ("} else if first == 0x0D {", "} else if first == 0x0C {"), ("} else if first == b'\\r' {", "} else if first == b'\\x0c' {"), ("            b'\\r' => {\n                let &b1", "            b'\\x0c' => {\n                let &b1")]),
+    ("lzw_decode: early change polarity", E, [("let mut decoder = if params.early_change != 0 {", "let mut decoder = if params.early_change == 0 {"), ("let mut decoder = if params.early_change == 0 {", "let mut decoder = if params.early_change != 0 {")]),
+    ("lzw_decode: symbol size 9", E, [("Decoder::new(BitOrder::Msb, 8)", "Decoder::new(BitOrder::Msb, 9)")]),
+    ("serialize_ops: SCN operands without separating space", CO, [("                for p in args {\n                    p.serialize(f)?;\n                    write!(f, \" \")?;\n                }\n                writeln!(f, \"SCN\")?;", "                for p in args {\n                    p.serialize(f)?;\n                }\n                writeln!(f, \"SCN\")?;"),
+                                                               ("        operand.serialize(f)?;\n        write!(f, \" \")?;", "        operand.serialize(f)?;")]),
+    ("deep_clone_op: XObject looked up among the fonts (seeded C20b)", CO, [("if !resources.xobjects.contains_key(name) {", "if !resources.fonts.contains_key(name) {")]),
     # ---- gen/extract_pagetree.py
     ("PagesNode: /Type /Pagez", TY, [('"Pages" => Ok(PagesNode::Tree(', '"Pagez" => Ok(PagesNode::Tree(')]),
 ]
